@@ -25,6 +25,7 @@ var universe = []srv.Key{
 	{ID: "a2", Cipher: "chacha20-ietf-poly1305", Secret: "s-a"}, // same (cipher, secret) as "a", other ID
 	{ID: "c", Cipher: "aes-128-gcm", Secret: "s-c"},
 	{ID: "d", Cipher: "aes-192-gcm", Secret: "s-b"}, // same secret as "b", other cipher
+	{ID: "a", Cipher: "chacha20-ietf-poly1305", Secret: "s-a-second"}, // same ID and cipher as "a", another secret (a second device of one user)
 }
 
 var foreign = srv.Key{ID: "zz", Cipher: "aes-256-gcm", Secret: "not-configured"}
@@ -37,7 +38,7 @@ func keys(idx ...int) []srv.Key {
 	return out
 }
 
-var keySets = [][]srv.Key{keys(0), keys(1), keys(0, 1), keys(0, 2), keys(2, 0), keys(1, 4), keys(3), keys(0, 1, 3), keys(0, 2, 1)}
+var keySets = [][]srv.Key{keys(0), keys(1), keys(0, 1), keys(0, 2), keys(2, 0), keys(1, 4), keys(3), keys(0, 1, 3), keys(0, 2, 1), keys(0, 5)}
 
 var lnSets = [][]srv.Ln{
 	{{Type: "tcp", Addr: "127.0.0.1:9000"}},
@@ -230,7 +231,7 @@ func scenario(c srv.Cfg) *engine.Scenario {
 func keyListConfigs() []srv.Cfg {
 	ln := []srv.Ln{{Type: "tcp", Addr: "127.0.0.1:9000"}, {Type: "udp", Addr: "127.0.0.1:9000"}}
 	var out []srv.Cfg
-	lists := [][]srv.Key{keys(1, 4), keys(4, 1), keys(0, 2, 1, 4, 3), keys(3, 4, 2, 1, 0), keys(2, 0), keys(0, 1, 2, 3, 4)}
+	lists := [][]srv.Key{keys(5, 0, 1), keys(1, 4), keys(4, 1), keys(0, 2, 1, 4, 3), keys(3, 4, 2, 1, 0), keys(2, 0), keys(0, 1, 2, 3, 4)}
 	for _, l := range lists {
 		out = append(out, srv.Cfg{Services: []srv.Svc{{Listeners: ln, Keys: l}}})
 		var lg []srv.Legacy
@@ -244,6 +245,14 @@ func keyListConfigs() []srv.Cfg {
 		srv.Cfg{Legacy: []srv.Legacy{{Key: universe[0], Port: 9005}, {Key: universe[1], Port: 9006}}},
 		srv.Cfg{Legacy: []srv.Legacy{{Key: universe[0], Port: 9005}, {Key: universe[1], Port: 9006}, {Key: universe[3], Port: 9005}, {Key: universe[4], Port: 9006}}},
 		srv.Cfg{Legacy: []srv.Legacy{{Key: universe[3], Port: 9007}, {Key: universe[0], Port: 9005}, {Key: universe[2], Port: 9007}}},
+	)
+	// two services that share keys (each service has its own key list: a key of the first service
+	// is a key of the second one too)
+	ln2 := []srv.Ln{{Type: "tcp", Addr: "127.0.0.1:9002"}, {Type: "udp", Addr: "127.0.0.1:9003"}}
+	out = append(out,
+		srv.Cfg{Services: []srv.Svc{{Listeners: ln, Keys: keys(0, 1)}, {Listeners: ln2, Keys: keys(1, 0, 3)}}},
+		srv.Cfg{Services: []srv.Svc{{Listeners: ln, Keys: keys(0, 2, 1)}, {Listeners: ln2, Keys: keys(2, 4)}}},
+		srv.Cfg{Services: []srv.Svc{{Listeners: ln, Keys: keys(3)}, {Listeners: ln2, Keys: keys(3)}}, Legacy: []srv.Legacy{{Key: universe[3], Port: 9005}}},
 	)
 	// many keys: the universe keys spread among 40 fillers
 	var many []srv.Key
